@@ -43,3 +43,6 @@ unsigned g_p1_calls, g_add_calls, g_seq_k; const struct json_t *g_p1_arg_k; cons
 
 /* loader units: the jwks_process call */
 unsigned g_pr_calls; const struct jwk_set *g_pr_set; const struct json_t *g_pr_json;
+
+/* jwks_load / jwks_create* wrapper units: the loader call */
+unsigned g_ls_calls; const struct jwk_set *g_ls_set; const void *g_ls_src; size_t g_ls_len; int g_ls_empty; struct jwk_set *g_ls_ret;
